@@ -338,7 +338,11 @@ def gen_overload_case(rng: random.Random) -> tuple[str, list[tuple[str, str]]]:
         seq.append(p.pop(0))
     ind = "    " if in_class else ""
     selfp = "self, " if in_class else ""
-    lines = ["import typing", "from typing import overload", "TYPE_CHECKING = True"]
+    lines = ["import typing", "from typing import overload", "TYPE_CHECKING = True",
+             "def ident(f): return f", "def ident_call(*a, **k): return lambda f: f"]
+    # decorators that leave the function as it is, stacked below (or above) @overload: PEP 702 / PEP 698 style stubs
+    # (`@overload @deprecated(...)`, `@overload @final`, `@overload @override`) and project-local decorators
+    extras = ["", "", "", "@typing.final", "@ident", "@ident_call(1, k='v')", "@ident\n@typing.final"]
     if in_class:
         lines.append("class K:")
     deco = rng.choice(["@overload", "@typing.overload"])
@@ -350,13 +354,16 @@ def gen_overload_case(rng: random.Random) -> tuple[str, list[tuple[str, str]]]:
         if what == "ov":
             ann = ["int", "str", "bytes", "float"][j]
             extra = rng.choice(["", ", b=0", ", *a", ", **k"])
-            blk = [f"{deco}"] + ([stacked[n]] if stacked[n] else []) + [f"def {n}({first}x: {ann}{extra}) -> {ann}: ..."]
+            below = [e for e in rng.choice(extras).split("\n") if e]
+            above = ["@ident"] if rng.random() < 0.1 else []
+            blk = above + [f"{deco}"] + ([stacked[n]] if stacked[n] else []) + below + [f"def {n}({first}x: {ann}{extra}) -> {ann}: ..."]
             if guard and not in_class:
                 blk = ["if TYPE_CHECKING:"] + ["    " + b for b in blk]
             body.extend(blk)
         else:
             if stacked[n]:
                 body.append(stacked[n])
+            body.extend(e for e in rng.choice(extras).split("\n") if e)
             body.append(f"def {n}({first}x, *a, b=0, **k): ...")
     lines.extend(ind + b for b in body)
     return "\n".join(lines) + "\n", [("K" if in_class else "", n) for n in names]
